@@ -168,6 +168,7 @@ aproofs! { c08_alias_u8_l3 => 5, 7, [h_alias::<u8, 3>(true)]; }
 aproofs! { c08_alias_i8_l3 => 5, 7, [h_alias::<i8, 3>(false)]; }
 
 //@ id: c08_alias_weights_u8_l3
+//@ besteffort: yes
 //@ prop: C08
 //@ tier: thorough
 //@ cap: 3600
